@@ -3,7 +3,7 @@
    stored under [id]; [extent] = the MIN(start)/MAX(end) query of _update_relations; [derive] the
    derived features it writes; [insert_derived] their insertion (merge on collision). *)
 From GV Require Import Base.Prelude Base.PyStr Model.Bins Model.DB Model.Parser Model.Import Model.GtfSpec
-  Proofs.C03Proofs.
+  Proofs.C03Proofs Proofs.C03End.
 Open Scope Z_scope.
 
 (* no line is ever its own parent or child — for every line, key and configuration *)
@@ -74,6 +74,46 @@ Section C03.
     insert_derived call force spec st f0 =
     Ok (mkSt (s_rows st ++ [set_bin (set_id id f0)]) (s_rels st) (s_dups st) a).
   Proof. exact (l_derived_new call). Qed.
+
+  (* _update_relations end to end (at least one kind of inference on, keys as in the id_spec that goes with them, the
+     derived ids new and pairwise distinct - an id already present is C03_explicit_kept's case): exactly the derived rows
+     are appended, each under its transcript / gene id; relations, duplicates table and counters are untouched *)
+  Theorem C03_inference_appends : forall g force st ds,
+    is_field_form (g_tkey g) = false -> is_field_form (g_gkey g) = false -> str_eqb (g_gkey g) (g_tkey g) = false ->
+    g_no_genes g && g_no_transcripts g = false ->
+    derive g st (tg_pairs g st) None = Ok ds ->
+    (forall d, In d ds -> derived_clean d = true) ->
+    NoDup (map (did g) ds) -> (forall d, In d ds -> has_id (did g d) (s_rows st) = false) ->
+    update_relations_gtf call g force (gtf_spec g) st =
+    Ok (mkSt (s_rows st ++ appended g ds) (s_rels st) (s_dups st) (s_auto st)).
+  Proof. exact (l_gtf_inference call). Qed.
+
+  (* every (transcript, gene) pair found through a stored subfeature gets ONE derived transcript, retrievable by the
+     transcript id, of type "transcript", carrying both ids, spanning what the extent query answers - by
+     C03_extent_min_max exactly min start .. max end of the transcript's subfeatures, on their strand and seqid *)
+  Theorem C03_transcript_inferred : forall g st ds t gn, str_eqb (g_gkey g) (g_tkey g) = false -> g_no_transcripts g = false ->
+    derive g st (tg_pairs g st) None = Ok ds -> NoDup (map r_id (s_rows st)) -> NoDup (map (did g) ds) ->
+    (forall d, In d ds -> has_id (did g d) (s_rows st) = false) -> In (t, gn) (tg_pairs g st) ->
+    exists x, extent g st t = Some x /\
+      find_id t (s_rows st ++ appended g ds) = Some (set_bin (set_id t (t_row g t gn x))) /\
+      NoDup (map r_id (s_rows st ++ appended g ds)).
+  Proof. exact l_transcript_inferred_one. Qed.
+
+  (* ... and its gene ONE derived gene spanning all the gene's subfeatures *)
+  Theorem C03_gene_inferred : forall g st ds t gn, g_no_genes g = false ->
+    derive g st (tg_pairs g st) None = Ok ds -> NoDup (map r_id (s_rows st)) -> NoDup (map (did g) ds) ->
+    (forall d, In d ds -> has_id (did g d) (s_rows st) = false) -> In (t, gn) (tg_pairs g st) ->
+    exists x, extent g st gn = Some x /\
+      find_id gn (s_rows st ++ appended g ds) = Some (set_bin (set_id gn (g_row g gn x))).
+  Proof. exact l_gene_inferred. Qed.
+
+  (* nothing else is derived: every appended row is the transcript or gene row of such a pair *)
+  Theorem C03_nothing_else_derived : forall g st ds d, derive g st (tg_pairs g st) None = Ok ds -> In d ds ->
+    exists t gn x, In (t, gn) (tg_pairs g st) /\
+      ((d = t_row g t gn x /\ extent g st t = Some x) \/ (d = g_row g gn x /\ extent g st gn = Some x)).
+  Proof. exact l_nothing_else. Qed.
 End C03.
 Print Assumptions C03_both_disabled. Print Assumptions C03_flags. Print Assumptions C03_derived_key.
 Print Assumptions C03_explicit_kept. Print Assumptions C03_derived_new.
+Print Assumptions C03_inference_appends. Print Assumptions C03_transcript_inferred. Print Assumptions C03_gene_inferred.
+Print Assumptions C03_nothing_else_derived.
